@@ -136,7 +136,7 @@ static void ProcessSingle(char const* pFileName) {
         else if (
                 (Header == FileHeaderDataRec) || (Header == FileHeaderRDataRec)
                 || (Header == FileHeaderRelocRec) || (Header == FileHeaderRRelocRec)) {
-            if (Gran == 0) {
+            if ((Gran == 0) || (Segment >= SegCount)) {
                 FormatError(pFileName, getmessage(Num_FormatInvRecordHeaderMsg));
             }
             errno   = 0;
